@@ -1,4 +1,5 @@
 //! Which cases each property's check generates, and how each case is run on the implementation.
+#[allow(unused_imports)]
 use crate::gast::*;
 use crate::gen::*;
 use crate::rng::Rng;
@@ -234,6 +235,9 @@ pub fn cases_for(prop: &str, tier: &str, seed: u64, shard: (usize, usize)) -> (V
                 cases.push(c);
             }
         }
+        "C03" => {
+            cases.extend(c03_cases(&pool, &mut rng, tier, shard));
+        }
         "VAL" => {
             // development job: default plan + every singleton on random documents
             let n = budget(tier, 1600, 40000) / shard.1;
@@ -267,4 +271,119 @@ pub fn run_impl(c: &Case, si: &SchemaInfo, doc: Option<&q::Document>) -> Vec<Str
         "validate" => crate::op_validate::run_validate(&si.doc, doc.unwrap(), &crate::op_validate::parse_plan(&c.extra[0])),
         _ => vec!["NOIMPL".to_string()],
     }
+}
+
+// ---------------------------------------------------------------- C03: cycle-heavy documents
+fn wrap(inner: Vec<GSel>, depth: usize, style: usize) -> Vec<GSel> {
+    let mut cur = inner;
+    for k in 0..depth {
+        cur = match (style + k) % 3 {
+            0 => vec![GSel::Field { alias: None, name: "t".into(), args: vec![], dirs: vec![], sels: cur }],
+            1 => vec![GSel::Inline { tc: None, dirs: vec![], sels: cur }],
+            _ => vec![GSel::Inline { tc: Some("T".into()), dirs: vec![], sels: vec![GSel::Field { alias: None, name: "t".into(), args: vec![], dirs: vec![], sels: cur }] }],
+        };
+    }
+    cur
+}
+
+/// fragment graph given as adjacency bit matrix over k fragments on type T of the `minimal` schema
+pub fn cyclic_doc(k: usize, edges: u32, depth: usize, style: usize, reach: usize, noise: u32) -> GDoc {
+    let f = |n: &str| GSel::Field { alias: None, name: n.into(), args: vec![], dirs: vec![], sels: vec![] };
+    let mut defs = vec![];
+    let root: Vec<GSel> = match reach {
+        0 => vec![GSel::Field { alias: None, name: "t".into(), args: vec![], dirs: vec![], sels: vec![GSel::Spread { name: "F0".into(), dirs: vec![] }] }],
+        1 => vec![GSel::Field { alias: None, name: "t".into(), args: vec![], dirs: vec![], sels: (0..k).map(|i| GSel::Spread { name: format!("F{}", i), dirs: vec![] }).collect() }],
+        _ => vec![f("a")],
+    };
+    defs.push(GDef::Op { kind: OpKind::SelSet, name: None, vars: vec![], dirs: vec![], sels: root });
+    for i in 0..k {
+        let mut sels = vec![];
+        if noise & 1 != 0 {
+            sels.push(GSel::Field { alias: Some("x".into()), name: if i % 2 == 0 { "a".into() } else { "b".into() }, args: vec![], dirs: vec![], sels: vec![] });
+        }
+        for j in 0..k {
+            if edges & (1 << (i * k + j)) != 0 {
+                let mut inner = vec![GSel::Spread { name: format!("F{}", j), dirs: vec![] }];
+                if noise & 2 != 0 {
+                    inner.push(GSel::Field { alias: None, name: "t".into(), args: vec![], dirs: vec![], sels: vec![GSel::Spread { name: format!("F{}", j), dirs: vec![] }, f("a")] });
+                }
+                sels.extend(wrap(inner, depth, style + j));
+            }
+        }
+        if sels.is_empty() || noise & 4 != 0 {
+            sels.push(f("a"));
+        }
+        defs.push(GDef::Frag { name: format!("F{}", i), tc: "T".into(), dirs: vec![], sels });
+    }
+    GDoc(defs)
+}
+
+pub fn c03_cases(pool: &[SchemaInfo], rng: &mut Rng, tier: &str, shard: (usize, usize)) -> Vec<Case> {
+    let mut cases = vec![];
+    let minimal = pool.iter().position(|s| s.name == "minimal").unwrap();
+    let all = crate::op_validate::ALL_RULES;
+    let mut n = 0usize;
+    let mut push = |cases: &mut Vec<Case>, fam: &str, si: usize, doc: String, plan: Vec<&str>, n: &mut usize| {
+        *n += 1;
+        cases.push(Case { id: format!("t{}x{}", shard.0, *n), family: fam.to_string(), schema: si, op: "validate".into(), doc: Some(doc),
+            extra: vec![format!("(plan {})", plan.join(" "))], note: String::new() });
+    };
+    // every fragment graph on 1..3 fragments (2^(k*k) edge sets); nesting depth, wrapper style, reachability, noise sampled
+    let mut idx = 0usize;
+    for k in 1..=3usize {
+        let total = 1u32 << (k * k);
+        for edges in 0..total {
+            let variants = if tier == "thorough" { 6 } else { 1 };
+            for _ in 0..variants {
+                idx += 1;
+                if idx % shard.1 != shard.0 {
+                    continue;
+                }
+                let doc = cyclic_doc(k, edges, rng.below(5), rng.below(3), rng.below(3), rng.below(8) as u32).print();
+                push(&mut cases, &format!("fragment-graph-{}", k), minimal, doc.clone(), all.to_vec(), &mut n);
+                let single = *rng.pick(all);
+                push(&mut cases, "fragment-graph-single-rule", minimal, doc, vec![single], &mut n);
+            }
+        }
+    }
+    // four-fragment graphs sampled
+    let extra = budget(tier, 600, 20000) / shard.1;
+    for _ in 0..extra {
+        let k = 4;
+        let edges = (rng.next() & 0xFFFF) as u32 & (rng.next() as u32 | 0x8421);
+        let doc = cyclic_doc(k, edges, rng.below(5), rng.below(3), rng.below(3), rng.below(8) as u32).print();
+        push(&mut cases, "fragment-graph-4", minimal, doc, all.to_vec(), &mut n);
+    }
+    // the known stack-overflow witness and relatives
+    if shard.0 == 0 {
+        for doc in [
+            "{ t { ...F } } fragment F on T { t { ...F t { ...F } } }",
+            "{ t { ...F } } fragment F on T { x: a t { x: b ...F } ...G } fragment G on T { t { ...F x: a } }",
+            "{ ...A } fragment A on Query { t { ...B } } fragment B on T { t { ...B ...C } l { ...C } } fragment C on T { t { ...B t { ...C } } }",
+        ] {
+            push(&mut cases, "corpus-cycles", minimal, doc.to_string(), all.to_vec(), &mut n);
+        }
+    }
+    // name-pool random documents (wild / deep) on every schema, default plan and singletons
+    let m = budget(tier, 500, 20000) / shard.1;
+    let mut tmp: Vec<Case> = vec![];
+    family_random_docs(&mut tmp, pool, rng, m, "validate", &format!("w{}x", shard.0), false);
+    for mut c in tmp {
+        let plan: Vec<&str> = if rng.pct(70) { all.to_vec() } else { vec![*rng.pick(all)] };
+        c.extra = vec![format!("(plan {})", plan.join(" "))];
+        cases.push(c);
+    }
+    // size scaling: wide and deep same-key fields (merge rule work grows fastest here)
+    for (w, dpt) in [(2usize, 6usize), (3, 4), (4, 3), (6, 2), (12, 1)] {
+        fn tower(w: usize, d: usize) -> Vec<GSel> {
+            (0..w)
+                .map(|_| GSel::Field { alias: None, name: "t".into(), args: vec![], dirs: vec![], sels: if d == 0 { vec![GSel::Field { alias: None, name: "a".into(), args: vec![], dirs: vec![], sels: vec![] }] } else { tower(w, d - 1) } })
+                .collect()
+        }
+        if shard.0 == (w + dpt) % shard.1 {
+            let doc = GDoc(vec![GDef::Op { kind: OpKind::SelSet, name: None, vars: vec![], dirs: vec![], sels: tower(w, dpt) }]).print();
+            push(&mut cases, "size-scaling", minimal, doc, all.to_vec(), &mut n);
+        }
+    }
+    cases
 }
